@@ -1,0 +1,20 @@
+//go:build verif
+
+package collection
+
+// VerifHook, when set by the verification harness, is called at every scheduling
+// point of a queue operation with the kind of the step that is about to run:
+//
+//	1 append (AddValue critical section)   2 send (publish the token)
+//	3 receive (claim a token)              4 pop (RemoveHead critical section)
+//	5 close                                6 size / emptiness
+//	7 snapshot (AsArray / GetIterator)     8 a helper goroutine is about to be spawned
+//	9 try-receive (RemoveAll)              10 discard (RemoveAll critical section)
+var VerifHook func(kind int, queue any)
+
+func verifYield(kind int, queue any) {
+	var hook = VerifHook
+	if hook != nil {
+		hook(kind, queue)
+	}
+}
